@@ -93,6 +93,27 @@ def check_group(g):
                                     "tags": {"op": "extract", "encoding": ename, "lower_case": lower, "all_intervals_length_one": degenerate},
                                     "group": {"op": "extract", "encoding": ename, "lower_case": lower, "deg": degenerate},
                                     "vectors": [g[i]], "expected": wv, "observed": str(o)[:300]})
+                    # the same intervals asked of a GenomicSequence one at a time, then all at once, then the whole contig: a history of
+                    # queries on one object; each answer must be the specification's (extraction must not write into the stored contig)
+                    if ename == "ascii":
+                        def history():
+                            from bionumpy.genomic_data import GenomicSequence
+                            gs = GenomicSequence.from_dict({"c": t})
+                            out = []
+                            for k in range(len(ex)):
+                                one = Bed6(["c"], starts[k:k + 1], stops[k:k + 1], ["x"], np.zeros(1, dtype=int), strands[k:k + 1])
+                                out.append(gs.extract_intervals(one, stranded=True).tolist())
+                            out.append(gs.extract_intervals(ivs, stranded=True).tolist())
+                            whole = Bed6(["c"], [0], [len(t)], ["x"], [0], ["+"])
+                            out.append(gs.extract_intervals(whole, stranded=True).tolist())
+                            return out
+                        o = outcome(history)
+                        n += 1
+                        wanth = [[_up(w)] for w in wv] + [[_up(w) for w in wv]] + [[_up(t)]]
+                        if o[0] != "ok" or [[_up(x) for x in q] for q in o[1]] != wanth:
+                            bad.append({"what": "a history of stranded extractions from one GenomicSequence differs from subsequence / reverse complement",
+                                        "tags": {"op": "extract-history", "encoding": ename}, "group": {"op": "extract-history"},
+                                        "vectors": [g[i]], "expected": wanth, "observed": str(o)[:400]})
             nt += ["seq|" + texts[i] for i in sel if texts[i] != texts[i].upper() or "N" in texts[i].upper()]
     else:
         texts = ["".join(v["s"]) for v in g]
